@@ -128,11 +128,25 @@ func body(c *kernel.Ctx) {
 	dutyB := core.NewSyncContributionDuty(33)
 	dutyX := core.NewRandaoDuty(64) // expires during the run
 	expiring := map[core.Duty]bool{dutyX: true}
+	// duty types that never expire (the production deadline function exempts exits and builder
+	// registrations; the deadliner answers DeadlineExempt for them): stored and served like any other
+	dutyE := core.NewVoluntaryExit(40)
+	dutyR := core.NewBuilderRegistrationDuty(41)
 	keys := []key{{dutyA, 0, 0}, {dutyA, 1, 0}, {dutyB, 0, 0}, {dutyB, 0, 1}, {dutyX, 0, 0}}
 	nKeys := 2 + verifrt.Intn("cfg", len(keys)-1)
 	keys = keys[:nKeys]
+	if verifrt.Intn("cfg", 3) == 2 {
+		keys = append(keys, key{dutyE, 0, 0}, key{dutyR, 1, 0})
+		if verifrt.Intn("cfg", 2) == 1 {
+			keys = keys[len(keys)-3:] // mostly never-expiring keys
+		}
+		verifrt.Probe("never-expiring-duty-keys")
+	}
 
 	dl := core.NewDeadliner(ctx, "c17", func(d core.Duty) (time.Time, bool) {
+		if d.Type == core.DutyExit || d.Type == core.DutyBuilderRegistration {
+			return time.Time{}, false
+		}
 		if expiring[d] {
 			return start.Add(expireAt), true
 		}
